@@ -80,7 +80,33 @@ def r1_fail_raise(prog, res, sev):
                     "unassigned and returns without raising *err: the attribute silently stays unset (the following "
                     "CheckRemainingInput only complains about garbage, not about a failed conversion)" % name)
         if not hit:
-            res.broke("%s: no test of the conversion stream's fail() found" % name)
+            # not a stream extraction: a C library conversion?  strtod/strtol report "nothing converted" through the end pointer and
+            # "out of range" through errno / an infinite result - both have to be looked at before the value is accepted
+            convs = [c for c in f.calls() if (c.get("fn") or "") in ("strtod", "strtold", "strtof", "strtol", "strtoll", "strtoul", "strtoull", "atof", "atoi", "atol", "sscanf")]
+            if not convs:
+                res.broke("%s: neither a test of the conversion stream's fail() nor a C library conversion found" % name)
+                continue
+            for c in convs:
+                n += 1
+                fn_ = c["fn"]
+                conds = [strip(x["ch"][0]) for x in f.walk() if x["k"] == "If"]
+                txt = " ".join(expr_str(cn) for cn in conds if cn is not None)
+                endp = None
+                a = call_args(c)
+                if fn_.startswith("strto") and len(a) > 1:
+                    e = strip(a[1])
+                    if e is not None and e["k"] == "Unary" and e.get("op") == "&" and strip(e["ch"][0]) is not None:
+                        endp = strip(e["ch"][0]).get("n")
+                end_ok = endp is not None and endp in txt
+                range_ok = any(t in txt for t in ("errno", "__errno_location", "isinf", "isfinite", "HUGE_VAL", "isnan", "ERANGE"))
+                ok = fn_.startswith("strto") and end_ok and range_ok
+                res.add("R1.fail_raises", "R1|%s|%s|conversion-failed" % (f.relfile(), name), f.where(c), ok,
+                        "%s(): the end pointer and the range indication are tested before the value is accepted" % fn_ if ok else
+                        "%s converts with %s() but %s: a literal that %s is accepted as a value (an out-of-range REAL becomes +-infinity, written "
+                        "back as INF., which is not Part 21) instead of raising *err" %
+                        (name, fn_, "tests neither the end pointer nor the range" if not (end_ok or range_ok) else
+                         ("does not test errno / isinf / HUGE_VAL" if end_ok else "does not test the end pointer") if fn_.startswith("strto") else "this function cannot report a failure",
+                         "cannot be represented" if end_ok or not fn_.startswith("strto") else "is malformed or cannot be represented"))
     res.floor("R1.fail_raises", "numeric literal readers", n, 3)
 
 
